@@ -173,13 +173,15 @@ func (s *streamHTTP) readMsg(c Codec, b []byte) (int, []byte, error) {
 		b, n, err := codec.ReadNext(b, s.r, s.opts.maxReceiveMessageSize)
 		if err == io.EOF {
 			s.rEOF, err = true, nil
-			if n == 0 && count > 0 {
+			if n == 0 {
 				// The body ended: there is no further message, and bytes
 				// that are left over belong to a truncated one.
-				if len(bytes.TrimSpace(b)) > 0 {
+				if len(bytes.Trim(b, " \t\r\n")) > 0 {
 					return count, nil, io.ErrUnexpectedEOF
 				}
-				return count, nil, io.EOF
+				if count > 0 {
+					return count, nil, io.EOF
+				}
 			}
 		}
 		s.rbuf = append(s.rbuf[:0], b[n:]...)
